@@ -59,6 +59,11 @@ EnumCases == UNION {
    : i \in Idx(Ref.enums)}
 MaskCases == UNION {{[kind |-> "mask", tag |-> Ref.masks[i][1], name |-> Ref.masks[i][2], value |-> Ref.masks[i][3][k][1], vname |-> Ref.masks[i][3][k][2]]
                         : k \in Idx(Ref.masks[i][3])} : i \in Idx(Ref.masks)}
+\* a registered flag together with position 31, which no mask registers (a vendor flag): as an int32 the value is negative; the flag keeps
+\* its name, the unregistered position is written in hexadecimal (2^31 does not fit TLC's integers: value = flag - 2^31)
+MaskHighCases == UNION {{[kind |-> "mask", tag |-> Ref.masks[i][1], name |-> Ref.masks[i][2], value |-> Ref.masks[i][3][k][1] - 2147483647 - 1,
+                          vname |-> Ref.masks[i][3][k][2] \o "|0x80000000"]
+                        : k \in Idx(Ref.masks[i][3])} : i \in Idx(Ref.masks)}
 \* masks of two flags: the same value is written by every form the library offers, one right after the other - the separator belongs
 \* to the form, the names and the value do not depend on which form was used before
 PairOf(m, k, j) == [kind |-> "mask2", tag |-> m[1], name |-> m[2], value |-> m[3][k][1] + m[3][j][1], vname |-> m[3][k][2] \o "|" \o m[3][j][2]]
@@ -87,7 +92,7 @@ NoScopeCases == {[kind |-> "name-out-of-scope", tag |-> t, name |-> NameOfTag(t)
 \* as "Unlocked" and "Locked", 9 is not.
 VendorTypeCases == {[kind |-> "vendortype", tag |-> 5505040 + i, name |-> <<"State", "ObjectType", "VendorKind">>[i], value |-> v,
                      vname |-> IF v = 1 THEN "Unlocked" ELSE IF v = 2 THEN "Locked" ELSE ""] : i \in 1..3, v \in {1, 2, 9}}
-Cases == TagCases \cup EnumCases \cup MaskCases \cup MaskPairCases \cup NameCases \cup NoScopeCases \cup VendorTypeCases
+Cases == TagCases \cup EnumCases \cup MaskCases \cup MaskHighCases \cup MaskPairCases \cup NameCases \cup NoScopeCases \cup VendorTypeCases
 
 Init == c \in Cases
 Next == UNCHANGED c
